@@ -148,7 +148,7 @@ def c02_spellings():
         out.append(f"{{ {sp} a = RsV; {decl(t2, w2, 'b', 't')} RddV = b {op} a; }}")
     for sp in ["int", "unsigned int", "unsigned"]:
         out += [f"{{ {sp} a = RsV; RddV = -a; }}", f"{{ {sp} a = RsV; RddV = ~a; }}", f"{{ {sp} a = RsV; RddV = (int64_t)a; }}", f"{{ {sp} a = RsV; RddV = a >> 3; }}",
-                f"{{ {sp} a = RsV; RddV = RtV + a; }}", f"{{ {sp} a = RsV; RddV = (RtV > 0) ? a : RttV; }}", f"{{ RddV = ({sp})RssV; }}", f"{{ {sp} a = RsV; a += RtV; RddV = a; }}"]
+                f"{{ {sp} a = RsV; RddV = RtV + a; }}", f"{{ {sp} a = RsV; RddV = (RtV > 0) ? a : RuuV; }}", f"{{ RddV = ({sp})RssV; }}", f"{{ {sp} a = RsV; a += RtV; RddV = a; }}"]
     return out
 
 
